@@ -114,6 +114,8 @@ structure El (α : Type) where
   store : List (W α) := []            -- in memory: the underlying array, as the history of the chunks stored into it
   count : Nat := 0                    -- _pixels_written (in bytes)
   canReg : Bool := true               -- _can_write_regular_data
+  amp : Option Nat := none            -- which AmpSF array the channel's format function holds (`set_amplitude_scaling`): the tag of a PVP write
+  scaled : List (Nat × Nat × Option Nat) := []   -- formatted chunks stored so far, newest first: (first row, rows, scaling in force at that moment)
   done : List Bool := []              -- ghost: rows that have been written
 
 structure State (α : Type) where
@@ -124,7 +126,7 @@ structure State (α : Type) where
   el : Nat → El α
 
 inductive Op (α : Type) where
-  | writePvp (i : Nat) (data : Blk α)
+  | writePvp (i : Nat) (data : Blk α) (amp : Nat)                  -- `amp` names the AmpSF column carried by `data`
   | writeSup (j : Nat) (data : Blk α)
   | writeSig (i : Nat) (r0 : Nat) (data : Blk α) (raw : Bool)      -- rows `r0 ..` of channel `i`, full rows
   | flush
@@ -194,10 +196,11 @@ def itemsPhase (c : Cfg α) (s : State α) : State α :=
 def flushCore (c : Cfg α) (force : Bool) (s : State α) : State α :=
   itemsPhase c (hdrPhase c (snapPhase c force s))
 
-/-- `write_pvp_array`: with AmpSF the channel's format function gets its scaling and formatted signal writes become possible
+/-- `write_pvp_array`: with AmpSF the channel's format function gets the AmpSF column of *this* call as its scaling
+    (`set_amplitude_scaling(numpy.copy(data['AmpSF']))`) and formatted signal writes become possible
     (only after the call has passed every guard, see `pvpBad`) -/
-def markCanReg (c : Cfg α) (s : State α) (i : Nat) : State α :=
-  if c.ampSF then { s with el := setEl s.el (c.sigIdx i) { s.el (c.sigIdx i) with canReg := true } } else s
+def markCanReg (c : Cfg α) (s : State α) (i a : Nat) : State α :=
+  if c.ampSF then { s with el := setEl s.el (c.sigIdx i) { s.el (c.sigIdx i) with canReg := true, amp := some a } } else s
 
 /-- the tail of `write_pvp_array` / `write_support_array` for element `k` once the arguments are validated:
     in memory `item_bytes = ...` (raises when already set), on a real file the memory map is overwritten and `item_written = True` -/
@@ -210,17 +213,19 @@ def putData (c : Cfg α) (s : State α) (k : Nat) (data : Blk α) : State α × 
 
 /-- a validated signal chunk (rows `r0 ..` of element `k`): stored in the array (in memory) or in the memory map (real file, where
     `item_written` is set as soon as the sample count equals the expected count) -/
-def putChunk (c : Cfg α) (s : State α) (k r0 : Nat) (data : Blk α) : State α :=
+def putChunk (c : Cfg α) (s : State α) (k r0 : Nat) (data : Blk α) (raw : Bool) : State α :=
   let it := c.item k
   let e := s.el k
   let nr := data.len / it.rowBytes
   let cnt := e.count + data.len
+  -- a formatted chunk is encoded with the scaling the format function holds now (`data` is the encoded block)
+  let sc := if raw then e.scaled else (r0, nr, e.amp) :: e.scaled
   if c.inMem then
-    { s with el := setEl s.el k { e with count := cnt, done := markRows e.done r0 nr,
+    { s with el := setEl s.el k { e with count := cnt, done := markRows e.done r0 nr, scaled := sc,
                                          store := ⟨false, r0 * it.rowBytes, data⟩ :: e.store } }
   else
     { s with ws := ⟨false, it.off + r0 * it.rowBytes, data⟩ :: s.ws,
-             el := setEl s.el k { e with count := cnt, done := markRows e.done r0 nr,
+             el := setEl s.el k { e with count := cnt, done := markRows e.done r0 nr, scaled := sc,
                                          written := e.written || decide (cnt = it.size) } }
 
 /-- a PVP write is refused before anything happens: closed writer, unknown channel, wrong number of vectors, and (in memory) a channel
@@ -243,9 +248,9 @@ instance (c : Cfg α) (s : State α) (i r0 : Nat) (d : Blk α) (raw : Bool) : De
 def unwritten (c : Cfg α) (s : State α) : List Nat := (List.range c.n).filter (fun k => !(s.el k).written)
 
 def step (c : Cfg α) (s : State α) : Op α → State α × Out
-  | .writePvp i data => if pvpBad c s i data then (s, .refused) else putData c (markCanReg c s i) i data
+  | .writePvp i data a => if pvpBad c s i data then (s, .refused) else putData c (markCanReg c s i a) i data
   | .writeSup j data => if supBad c s j data then (s, .refused) else putData c s (c.supIdx j) data
-  | .writeSig i r0 data raw => if sigBad c s i r0 data raw then (s, .refused) else (putChunk c s (c.sigIdx i) r0 data, .ok)
+  | .writeSig i r0 data raw => if sigBad c s i r0 data raw then (s, .refused) else (putChunk c s (c.sigIdx i) r0 data raw, .ok)
   | .flush => if s.closed then (s, .refused) else (flushCore c false s, .ok)
   | .close =>
     if s.closed then (s, .ok)
